@@ -91,13 +91,24 @@ func (c *wsConn) tryDelete(s *Subscription) {
 		return gcStateDelete
 	})
 
+	var rcbs []*readyCallback
 	for rid, ref := range refs {
 		switch ref.state {
 		case gcStateDelete:
+			rcbs = append(rcbs, ref.sub.readyCallbacks...)
 			ref.sub.Dispose()
 			delete(c.subs, rid)
 		case gcStateUnsend:
 			ref.sub.Unsend()
+		}
+	}
+
+	// A subscription deleted because it is no longer referenced, is no longer
+	// awaited by those waiting for the resources that referenced it.
+	for _, rcb := range rcbs {
+		if rcb.root.state != stateDisposed {
+			rcb.loading--
+			rcb.root.testReady(rcb)
 		}
 	}
 }
